@@ -407,18 +407,20 @@ def vfmt : Nat → Ctx → List Char → Option Nat → Except Exc (List Char ×
 
 /-! ## `RecursionSpec` and `_format_keep_type` -/
 
-/-- `RecursionSpec(format_spec)`. -/
+/-- `RecursionSpec(format_spec)`; `conversion` is the `!r !s !a` still to apply when it had to wait
+    for the default recursion of a single expression. -/
 structure RSpec where
   isRecursive : Bool
   isFlat : Bool
   hasRecursed : Bool
   formatSpec : List Char
+  conversion : Option Char := none
   deriving Repr, DecidableEq, Inhabited
 
 def RSpec.parse (spec : List Char) : RSpec :=
-  if spec.take 2 = ['r', 'f'] then ⟨true, false, false, spec.drop 2⟩
-  else if spec.take 2 = ['f', 'f'] then ⟨false, true, false, spec.drop 2⟩
-  else ⟨false, false, false, spec⟩
+  if spec.take 2 = ['r', 'f'] then ⟨true, false, false, spec.drop 2, none⟩
+  else if spec.take 2 = ['f', 'f'] then ⟨false, true, false, spec.drop 2, none⟩
+  else ⟨false, false, false, spec, none⟩
 
 /-- An element of `result`: `(literal_text, True, None)` or `(obj, False, recursion_spec)`. -/
 inductive Entry where
@@ -452,10 +454,13 @@ def ktField (fi : Bool → Val → Except Exc Val) (ctx : Ctx) (isRec : Bool) (f
         match recursed with
         | .error e => .error e
         | .ok (obj1, rs1) =>
-          -- do any conversion on the resulting object
-          match convertField obj1 f.conv with
-          | .error e => .error e
-          | .ok obj2 => .ok (.fld obj2 rs1, auto2)
+          -- do any conversion on the resulting object - unless it might still recurse by default
+          -- as a single expression: the conversion then applies after that recursion
+          if rs1.hasRecursed || rs1.isFlat then
+            match convertField obj1 f.conv with
+            | .error e => .error e
+            | .ok obj2 => .ok (.fld obj2 rs1, auto2)
+          else .ok (.fld obj1 { rs1 with conversion := f.conv }, auto2)
 
 /-- The `for literal_text, field_name, format_spec, conversion in self.parse(format_string)` loop. -/
 def ktLoop (fi : Bool → Val → Except Exc Val) (ctx : Ctx) (isRec : Bool) :
@@ -471,10 +476,14 @@ def ktLoop (fi : Bool → Val → Except Exc Val) (ctx : Ctx) (isRec : Bool) :
       | .error e => .error e
       | .ok (entry, auto1) => ktLoop fi ctx isRec ts perr auto1 (result1 ++ [entry])
 
-/-- The text one entry contributes to the `''.join([...])`. -/
+/-- The text one entry contributes to the `''.join([...])`:
+    `format_field(convert_field(obj, recursion_spec.conversion), recursion_spec.format_spec)`. -/
 def entryText : Entry → Except Exc (List Char)
   | .lit t => .ok t
-  | .fld obj rs => formatField obj rs.formatSpec
+  | .fld obj rs =>
+    match convertField obj rs.conversion with
+    | .error e => .error e
+    | .ok o => formatField o rs.formatSpec
 
 def joinEntries : List Entry → Except Exc (List Char)
   | [] => .ok []
@@ -492,7 +501,13 @@ def ktFinish (fi : Bool → Val → Except Exc Val) (result : List Entry) : Exce
   | [.lit t] => .ok (.str (String.ofList t))
   | [.fld obj rs] =>
     let formatted : Except Exc Val :=
-      if !(rs.hasRecursed || rs.isFlat) then fi rs.isRecursive obj else .ok obj
+      if !(rs.hasRecursed || rs.isFlat) then
+        -- default is go recursive where a single expression is the entire string; a conversion
+        -- that waited for this applies now
+        match fi rs.isRecursive obj with
+        | .error e => .error e
+        | .ok o => convertField o rs.conversion
+      else .ok obj
     match formatted with
     | .error e => .error e
     | .ok o =>
